@@ -137,7 +137,7 @@ def decode_colors(arr, key):
 # ------------------------------------------------------------------ concrete meshes
 def tag_array(tags, form):
     """the identity attribute as the user may store it: a plain integer vector, or one column of a 2-D float array"""
-    if form == 1:
+    if form & 1:
         return np.column_stack([tags.astype(np.float64), np.full(len(tags), 0.5)])
     return tags.astype(np.int64).copy()
 
@@ -209,11 +209,15 @@ def attach(trimesh, m, am, vis, hasn, foff=0, voff=0, form=0):
         m.visual.vertex_colors = VCOL[vt]
     elif vis == "texture":
         m.visual = trimesh.visual.TextureVisuals(uv=UVS[np.array(am["uvc"], dtype=np.int64)])
+        if form & 2:
+            # a second per-vertex channel next to the uv rows (the glTF loader stores COLOR_0 of a textured
+            # primitive this way)
+            m.visual.vertex_attributes["tag"] = vt.astype(np.int64).copy()
     if vis != "none" and m.visual.kind != vis:
         raise MachineryError(f"could not attach {vis} visuals")
     m.face_attributes["fid"] = tag_array(ft, form)
     m.vertex_attributes["vid"] = tag_array(vt, form)
-    if form == 1:
+    if form & 1:
         # entries that are not one-row-per-element data must be left alone by every operation
         m.face_attributes["scale"] = 2.5
         m.face_attributes["other"] = np.arange(nf + 2)
@@ -249,6 +253,8 @@ def build_by_constructor(trimesh, am, vis, hasn, rs, o, k, with_face_normals, fo
         kw["vertex_colors"] = VCOL[vt]
     elif vis == "texture":
         kw["visual"] = trimesh.visual.TextureVisuals(uv=UVS[np.array(am["uvc"], dtype=np.int64)])
+        if form & 2:
+            kw["visual"].vertex_attributes["tag"] = vt.astype(np.int64).copy()
     if hasn:
         kw["vertex_normals"] = NORMS[np.array(am["nc"], dtype=np.int64)]
     if with_face_normals:                       # a file format that stores them (STL)
@@ -271,6 +277,9 @@ def project(r, vis, hasn, sign_free=False):
     va = r.vertex_attributes.get("vid")
     out["va"] = chan(None if va is None else tag_values(va))
     out["fc"], out["vc"], out["uv"], out["vn"], out["fn"] = chan(), chan(), chan(), chan(), chan()
+    # xa: a second per-vertex channel kept by a texture visual next to uv; dfc / dvc: the colour kind the
+    # library derives from the stored one, read through the public accessor
+    out["xa"], out["dfc"], out["dvc"] = chan(), chan(), chan()
     out["fcn"], out["vcn"] = -1, -1
     # values trimesh derives from faces and vertices together are only read from a result whose faces
     # index existing vertices and that is not empty (TLC rejects the former on the index clause; deriving
@@ -283,15 +292,22 @@ def project(r, vis, hasn, sign_free=False):
             out["fcn"] = int(len(fcol))
             if vis == "face" and kind is not None:
                 out["fc"] = chan(decode_colors(fcol, FCOL_KEY))
+            elif vis == "vertex" and kind == "vertex" and sound:
+                out["dfc"] = chan([[int(x) for x in row] for row in np.asarray(fcol).reshape(-1, 4)])
         if kind == "vertex" or sound:
             vcol = r.visual.vertex_colors
             out["vcn"] = int(len(vcol))
             if vis == "vertex" and kind is not None:
                 out["vc"] = chan(decode_colors(vcol, VCOL_KEY))
+            elif vis == "face" and kind == "face" and sound:
+                out["dvc"] = chan([[int(x) for x in row] for row in np.asarray(vcol).reshape(-1, 4)])
     elif kind == "texture" and vis == "texture":
         uv = r.visual.uv
         if uv is not None and len(uv) > 0:
             out["uv"] = chan(decode_rows(np.asarray(uv).reshape(-1, 2), UVS, 1e-12))
+        extra = r.visual.vertex_attributes.get("tag")
+        if extra is not None and len(extra) > 0:
+            out["xa"] = chan(tag_values(extra))
     if not sound:
         return out
     if hasn:
@@ -411,7 +427,7 @@ def fill_parameters(rs, am, case, rec):
         return
     if op == "update_faces":
         rec["mk"], rec["mask"] = [("b", rand_bool_mask(rs, nf)), ("i", rand_index_mask(rs, nf, False)),
-                                  ("i", rand_index_mask(rs, nf, True))][case["k"] % 3]
+                                  ("i", rand_index_mask(rs, nf, True)), ("i", same_length_mask(rs, nf))][case["k"] % 4]
     elif op == "update_vertices":
         vm = vertex_masks(rs, am)
         rec["mk"], rec["mask"] = vm[case["k"] % len(vm)]
@@ -435,7 +451,7 @@ def run_case(trimesh, case, rs):
            "carry": not (op == "concatenate" and case.get("how") == "scene"),
            "cut": [[len(q["pos"]), len(q["faces"]), q.get("made", "")] for q in case["parts"]] if op == "concatenate" else []}
     stage = "build"
-    form = (case["k"] // 5) % 2
+    form = (case["k"] // 5) % 2 + 2 * ((case["k"] // 3) % 2)
     rec["form"] = form
     try:
         if op == "concatenate":
@@ -665,6 +681,16 @@ def rand_index_mask(rs, n, repeat):
     return sorted(idx) if rs.rand() < 0.4 else idx
 
 
+def same_length_mask(rs, n):
+    """an index mask with as many entries as there are elements: a permutation, or a permutation in which one
+    element is repeated and another one dropped (the element count stays, the elements do not)"""
+    m = [int(x) for x in rs.permutation(n)]
+    if n > 1 and rs.rand() < 0.5:
+        i, j = rs.choice(n, 2, replace=False)
+        m[i] = m[j]
+    return m
+
+
 def vertex_masks(rs, am):
     """(kind, mask): half of them keep every referenced slot (pure re-indexing), half are arbitrary"""
     n = len(am["pos"])
@@ -679,7 +705,7 @@ def vertex_masks(rs, am):
     out.append(("i", [idx[j] for j in order]))
     rep = [idx[j] for j in order] + [int(idx[rs.randint(len(idx))]) for _ in range(rs.randint(1, 3))]
     out.append(("i", [rep[j] for j in rs.permutation(len(rep))]))
-    m = rand_index_mask(rs, n, False)
+    m = rand_index_mask(rs, n, False) if rs.rand() < 0.5 else [int(x) for x in rs.permutation(n)]
     if m:
         out.append(("i", m))
     return out
@@ -758,7 +784,7 @@ def plan_big(rs, k, am):
     for op in ("unmerge_vertices", "remove_unreferenced_vertices", "remove_duplicate_faces", "remove_degenerate_faces"):
         add(op)
     add("update_faces", mk="b", mask=rand_bool_mask(rs, nf))
-    add("update_faces", mk="i", mask=rand_index_mask(rs, nf, True))
+    add("update_faces", mk="i", mask=rand_index_mask(rs, nf, True) if rs.rand() < 0.5 else same_length_mask(rs, nf))
     vm = vertex_masks(rs, am)
     add("update_vertices", mk=vm[0][0], mask=vm[0][1])
     add("update_vertices", mk=vm[2][0], mask=vm[2][1])
@@ -833,7 +859,7 @@ def plan_for(rs, k, am, partner, tier):
                "remove_degenerate_faces", "remove_infinite_values"):
         if take():
             add(op)
-    fm = [("b", rand_bool_mask(rs, nf)), ("i", rand_index_mask(rs, nf, False)), ("i", rand_index_mask(rs, nf, True))]
+    fm = [("i", same_length_mask(rs, nf)), ("i", rand_index_mask(rs, nf, False)), ("i", rand_index_mask(rs, nf, True))]
     if nf <= 2:
         fm += [("b", list(b)) for b in itertools.product((0, 1), repeat=nf)]
     else:
@@ -956,6 +982,11 @@ def deviation_of(c, clause):
         # validation masks and reverses faces while the cache is locked: values computed (or handed in) for
         # the faces before are used and kept
         return "ProcessValidateEditsFacesUnderCacheLock"
+    if c["op"] == "update_vertices_inv" and c["vis"] == "vertex" and clause == "derived_face_color" \
+            and (c["pre"] or c["first"]) and c["mask"] == list(range(len(c["pos"]))):
+        # every vertex kept in place (the stored vertex colours do not change, so the visual's cache stays
+        # valid) while the inverse re-points faces: face colours generated before are returned for the new faces
+        return "GeneratedFaceColorsSurviveFaceReindex"
     if c["op"] == "split" and ENGINES[c["eng"]] == "networkx" and clause == "relative_order":
         # the networkx engine returns every component in the iteration order of a Python set
         return "NetworkxComponentsUnordered"
@@ -1089,7 +1120,9 @@ def main(argv):
                  "meshes_of_more_than_16_faces": 0, "process_validate_dropped_faces": 0,
                  "process_merged_with_stored_normals": 0, "process_after_reads": 0,
                  "normals_kept_across_changed_faces": 0, "history_second_operation": 0, "unsigned_vertex_mask": 0,
-                 "networkx_split_several_parts": 0, "scene_concatenation": 0, "two_dimensional_float_attributes": 0}
+                 "networkx_split_several_parts": 0, "scene_concatenation": 0, "two_dimensional_float_attributes": 0,
+                 "derived_colors_after_same_length_mask": 0, "derived_colors_read": 0,
+                 "texture_extra_channel_submesh_split": 0, "texture_extra_channel_kept": 0}
     for r0 in range(0, len(items), round_size):
         part = items[r0:r0 + round_size]
         res = pmap(gen_records, part, chunk=max(40, min(600, len(part) // 96 + 1)))
@@ -1146,7 +1179,16 @@ def main(argv):
             exercised["unsigned_vertex_mask"] += c["op"] == "update_vertices" and c["mdt"].startswith("uint")
             exercised["networkx_split_several_parts"] += c["op"] == "split" and ENGINES[c["eng"]] == "networkx" and len(outs) > 1
             exercised["scene_concatenation"] += c["op"] == "concatenate" and c["how"] == "scene"
-            exercised["two_dimensional_float_attributes"] += c["form"] == 1 and c["op"] in IN_PLACE and bool(outs) \
+            derived = bool(outs) and (outs[0]["dfc"]["has"] or outs[0]["dvc"]["has"])
+            exercised["derived_colors_after_same_length_mask"] += derived and bool(c["pre"] or c["first"]) and (
+                (c["op"] == "update_faces" and c["mk"] == "i" and len(c["mask"]) == len(c["faces"]) and c["mask"] != list(range(len(c["faces"]))))
+                or (c["op"] in ("update_vertices", "update_vertices_inv") and c["mk"] == "i" and len(c["mask"]) == len(c["pos"])
+                    and c["mask"] != list(range(len(c["pos"])))))
+            exercised["derived_colors_read"] += derived
+            exercised["texture_extra_channel_submesh_split"] += bool(c["form"] & 2) and c["vis"] == "texture" and \
+                c["op"] in ("submesh", "split") and bool(outs)
+            exercised["texture_extra_channel_kept"] += any(o["xa"]["has"] for o in outs)
+            exercised["two_dimensional_float_attributes"] += c["form"] & 1 and c["op"] in IN_PLACE and bool(outs) \
                 and outs[0]["fa"]["has"] and len(outs[0]["fa"]["v"]) > 0
             for name, key in (("face_color_channel", "fc"), ("vertex_color_channel", "vc"), ("uv_channel", "uv"),
                               ("vertex_normal_channel", "vn"), ("face_attribute_channel", "fa"),
@@ -1165,7 +1207,9 @@ def main(argv):
     thin = {k: exercised[k] for k in ("process_validate_dropped_faces", "process_merged_with_stored_normals",
                                       "process_after_reads", "history_second_operation", "unsigned_vertex_mask",
                                       "networkx_split_several_parts", "scene_concatenation",
-                                      "two_dimensional_float_attributes") if exercised[k] < 40}
+                                      "two_dimensional_float_attributes", "derived_colors_after_same_length_mask",
+                                      "derived_colors_read", "texture_extra_channel_submesh_split",
+                                      "texture_extra_channel_kept") if exercised[k] < 40}
     if not replay and (thin or byop.get("process", 0) < 500 or sum(skipped.values()) > 0.6 * max(1, exercised["history_second_operation"])
                        or min(entry.get(k, 0) for k in ENTRY_MUST) < 25):
         raise MachineryError(f"an audited family is nearly empty: {thin} skipped={skipped} entry={entry}")
